@@ -21,6 +21,7 @@ func init() {
 		func(t *vcTrial) { vcRunC15(t, []string{"listener-create-tcp", "listener-convert-unix", "listener-twice"}, 1, true) },
 		func(t *vcTrial) { vcRunC15(t, []string{"server-shutdown", "server-user-close"}, 1, false) },
 		func(t *vcTrial) { vcRunC15(t, []string{"dial-refused", "dial-timeout", "dial-ok", "fdconn", "detach", "accept-peerclose"}, 2, true) },
+		func(t *vcTrial) { vcRunC15(t, []string{"fault-dial", "fault-accept", "fault-io", "fault-poller", "fault-fdconn", "fault-dial-unix", "fault-poller", "fault-dial"}, 1, true) },
 	}
 }
 
@@ -32,6 +33,20 @@ var vc15Kinds = []string{
 
 func vcScenC15(t *vcTrial) {
 	r := t.R
+	if r.chance(35) {
+		// error paths: lifecycles whose system calls fail (sequential: the fault plan is process-wide)
+		n := r.rng(2, 8)
+		var acts []string
+		for i := 0; i < n; i++ {
+			if r.chance(75) {
+				acts = append(acts, vc15FaultKinds[r.intn(len(vc15FaultKinds))])
+			} else {
+				acts = append(acts, vc15Kinds[r.intn(len(vc15Kinds))])
+			}
+		}
+		vcRunC15(t, acts, 1, r.chance(70))
+		return
+	}
 	n := r.rng(3, 14)
 	var acts []string
 	for i := 0; i < n; i++ {
@@ -391,6 +406,8 @@ func vc15Act(t *vcTrial, act string, r *vfRng, tmp string, sockSeq *uint64, deta
 		for _, c := range raws {
 			c.Close()
 		}
+	case "fault-dial", "fault-dial-unix", "fault-accept", "fault-io", "fault-poller", "fault-fdconn":
+		vc15FaultAct(t, act, r, tmp, unixPath)
 	case "poller-grow-shrink":
 		// private manager: pollers opened by growth, closed by shrink and by Close
 		m := newManager(r.rng(1, 4))
